@@ -96,3 +96,43 @@ func consistent(g *Grammar) (err error) {
 	}
 	return
 }
+
+// UndefinedRegDef reports a reference to a regular definition that is neither defined nor imported,
+// wherever it occurs (also inside a regular definition that no token uses).
+func (this *LexPart) UndefinedRegDef() error {
+	if this.ProdList == nil {
+		return nil
+	}
+	var check func(p *LexPattern) error
+	check = func(p *LexPattern) error {
+		for _, alt := range p.Alternatives {
+			for _, term := range alt.Terms {
+				var err error
+				switch t := term.(type) {
+				case *LexGroupPattern:
+					err = check(t.LexPattern)
+				case *LexOptPattern:
+					err = check(t.LexPattern)
+				case *LexRepPattern:
+					err = check(t.LexPattern)
+				case *LexRegDefId:
+					_, isRegDef := this.RegDefs[t.Id]
+					_, isImport := this.Imports[t.Id]
+					if !isRegDef && !isImport {
+						err = fmt.Errorf("undefined regular definition %s", t.Id)
+					}
+				}
+				if err != nil {
+					return err
+				}
+			}
+		}
+		return nil
+	}
+	for _, prod := range this.ProdList.Productions {
+		if err := check(prod.LexPattern()); err != nil {
+			return fmt.Errorf("%s in %s", err, prod.Id())
+		}
+	}
+	return nil
+}
